@@ -1,0 +1,9 @@
+//go:build !verif
+
+package blobclient
+
+import "github.com/cenkalti/backoff"
+
+// verifPollBackOff lets a verification harness replace the polling backoff; it always returns nil
+// unless built with the tag `verif`.
+func verifPollBackOff() backoff.BackOff { return nil }
